@@ -1,0 +1,67 @@
+//go:build verif
+
+package hermes
+
+import "sync"
+
+// VerifProbe is a set of read-only call-outs used by the verification harness
+// in /verif. Probes are registered per session so that concurrent runs of
+// different sessions reach their own collector.
+type VerifProbe struct {
+	Config      func(g *GlobalVarsMain, cfg *Config, hp *HFilePath)
+	DayStart    func(g *GlobalVarsMain, zeit int)
+	AfterEvatra func(g *GlobalVarsMain, zeit int, w *WaterSharedVars)
+	SubStep     func(g *GlobalVarsMain, zeit, subd int, steps, wdt float64, w *WaterSharedVars, n *NitroSharedVars)
+	DayEnd      func(g *GlobalVarsMain, zeit int, steps, wdt float64, c *CropSharedVars, w *WaterSharedVars)
+}
+
+var verifProbes sync.Map // *HermesSession -> *VerifProbe
+
+// VerifSetProbe registers (or with nil removes) the probe of a session.
+func VerifSetProbe(s *HermesSession, p *VerifProbe) {
+	if p == nil {
+		verifProbes.Delete(s)
+		return
+	}
+	verifProbes.Store(s, p)
+}
+
+func verifProbeOf(g *GlobalVarsMain) *VerifProbe {
+	if g.Session == nil {
+		return nil
+	}
+	if p, ok := verifProbes.Load(g.Session); ok {
+		return p.(*VerifProbe)
+	}
+	return nil
+}
+
+func verifConfig(g *GlobalVarsMain, cfg *Config, hp *HFilePath) {
+	if p := verifProbeOf(g); p != nil && p.Config != nil {
+		p.Config(g, cfg, hp)
+	}
+}
+
+func verifDayStart(g *GlobalVarsMain, zeit int) {
+	if p := verifProbeOf(g); p != nil && p.DayStart != nil {
+		p.DayStart(g, zeit)
+	}
+}
+
+func verifAfterEvatra(g *GlobalVarsMain, zeit int, w *WaterSharedVars) {
+	if p := verifProbeOf(g); p != nil && p.AfterEvatra != nil {
+		p.AfterEvatra(g, zeit, w)
+	}
+}
+
+func verifSubStep(g *GlobalVarsMain, zeit, subd int, steps, wdt float64, w *WaterSharedVars, n *NitroSharedVars) {
+	if p := verifProbeOf(g); p != nil && p.SubStep != nil {
+		p.SubStep(g, zeit, subd, steps, wdt, w, n)
+	}
+}
+
+func verifDayEnd(g *GlobalVarsMain, zeit int, steps, wdt float64, c *CropSharedVars, w *WaterSharedVars) {
+	if p := verifProbeOf(g); p != nil && p.DayEnd != nil {
+		p.DayEnd(g, zeit, steps, wdt, c, w)
+	}
+}
